@@ -73,7 +73,10 @@ func autoDetectPacketSize(r io.Reader) (packetSize int, err error) {
 				return
 			} else if n == -1 {
 				var ls = packetSize - (l - packetSize)
-				if _, err = r.Read(make([]byte, ls)); err != nil {
+				if _, err = io.ReadFull(r, make([]byte, ls)); err == io.ErrUnexpectedEOF {
+					// Input ends before the next packet starts: this is dealt with when fetching the next packet
+					err = nil
+				} else if err != nil {
 					err = fmt.Errorf("astits: reading %d bytes to sync reader failed: %w", ls, err)
 					return
 				}
@@ -99,7 +102,11 @@ func peek(r io.Reader, b []byte) (shouldRewind bool, err error) {
 		return false, nil
 	}
 
-	_, err = r.Read(b)
+	// A single Read may return fewer bytes than asked for: read until the buffer is full.
+	// An input shorter than the buffer is not an error here, missing bytes are left to zero
+	if _, err = io.ReadFull(r, b); err == io.ErrUnexpectedEOF {
+		err = nil
+	}
 	shouldRewind = true
 	return
 }
